@@ -295,7 +295,7 @@ PROPS['C08'] = {
 
 PROPS['C08']['trusted'] = PROPS['C08']['trusted'] + CODEC_TRUSTED
 PROPS['C08']['native_search'][r'codec::(NodeInfo|Range|Address).*'] = CODEC_DRV
-PROPS['C08']['native_search'][r'codec::InitMsg.*'] = INIT_DRV
+PROPS['C08']['native_search'][r'codec::InitMsg.*'] = dict(INIT_DRV, env={'VERIF_ONLY_PANICS': '1'})
 
 CLB = 'cloud::__verif_cloudblocks::'
 PROPS['C13'] = {
